@@ -48,6 +48,7 @@ func main() {
 	sconc := fs.Int("sconc", 0, "simple/kvs: concurrent clients (0 = sequential driver)")
 	access := fs.Bool("access", false, "conc: record lock events and inode accesses instead of the history")
 	storm := fs.Bool("storm", false, "conc: most requests truncate and re-extend the one large sparse file")
+	timed := fs.Bool("timed", false, "run every server on util/timed_disk (what go-nfsd -stats does) over a disk with slow barriers")
 	many := fs.Int("many", 0, "conc: extra files shared by all clients (more than the inode cache holds)")
 	sizesFlag := fs.String("sizes", "", "layout: disk sizes, e.g. 1536-1600,32760-32776 (increasing)")
 	fillFlag := fs.String("fill", "", "layout: sizes to fill completely")
@@ -62,6 +63,7 @@ func main() {
 	snapEach := fs.Int("snapeach", 0, "structural snapshot every n steps (0 = only at the end)")
 	fs.Parse(os.Args[2:])
 	drv.UseTransport = *transport
+	drv.UseTimedDisk = *timed
 	if os.Getenv("VERIF_DEBUG_LEAK") != "" {
 		drv.AfterExec = func(c *drv.Call) {
 			if h := drv.Mon.Held(); len(h) > 0 {
